@@ -2,7 +2,7 @@
 import itertools, json, os, subprocess, time
 from ..interp import Interp, Obj, Sym, View, vkey, _Ref, _ValPlace
 from ..build import AnalysisBroken
-from ..lib_c08 import (Fn, Summary, select, Uninterpretable, StepInterp, int_locals_written_in, find_member_loop,
+from ..lib_c08 import (Fn, Summary, select, Uninterpretable, StepInterp, GuardInterp, int_locals_written_in, find_member_loop,
                        IterInterp, enclosing_loops, generic_args, may_write_through, HeaderTypes, leaves)
 
 PU = 'parse.c'
@@ -851,8 +851,18 @@ def r083_attributes(P, u, rep):
     ]
     # diagnostics that return (warnings) are recorded, not looked into: the path that issues one is judged like any other
     noret = ('error', 'error_at', 'error_tok', 'exit', '_exit', 'abort', '__assert_fail')
-    opaque = sorted(set(c.callee() for c in fn.calls() if c.callee() and c.callee() not in noret
-                        and ' '.join((c.dtype or c.type or '').split()) == 'void'))
+    opaque, seen_fns, work = set(), {'attribute_list'}, [fn]
+    while work:
+        for c in work.pop().calls():
+            cn = c.callee()
+            if not cn or cn in noret or cn in seen_fns:
+                continue
+            seen_fns.add(cn)
+            if cn in u.functions:
+                work.append(u.functions[cn])          # a helper of this unit: looked into
+            elif ' '.join((c.dtype or c.type or '').split()) == 'void':
+                opaque.add(cn)
+    opaque = sorted(opaque)
     for name, seq in cases:
         key = '%s:attribute_list:%s' % (PU, name)
         n_al = seq.count('aligned')
@@ -867,7 +877,8 @@ def r083_attributes(P, u, rep):
             shown.append(s)
         shown = ' '.join(shown) or '(no attribute)'
         try:
-            it = Interp(P, u, {'models': tw.models(), 'cut': {'const_expr': _cut_const_exprs('N')}, 'opaque': opaque})
+            it = GuardInterp(P, u, {'models': tw.models(), 'cut': {'const_expr': _cut_const_exprs('N')}, 'opaque': opaque})
+            it.set_budget(6)
 
             def mk(ctx):
                 t = Obj('Type', lazy=False, label='ty')
@@ -898,43 +909,53 @@ def r083_attributes(P, u, rep):
         if broken:
             rep.undecided('R08.3', key, broken, where=where)
             continue
-        bad, judged = [], 0
-        for vals in itertools.product(_ATTR_A0, *([_ATTR_N] * n_al)):
-            e = {'A0': vals[0]}
-            want = vals[0]
-            for i, n in enumerate(vals[1:]):
-                e['N%d' % (i + 1)] = n
-                if n > 0:
-                    want = n
-            positive = all(n > 0 for n in vals[1:])
-            hits = [x for x in sums if x[0].applies(e)]
-            txt = ', '.join('%s=%d' % (k_, e[k_]) for k_ in sorted(e, key=lambda z: (z != 'A0', z)))
-            if not hits:
-                if positive:
-                    bad.append((None, 'no path of attribute_list() covers %s' % txt))
-                continue        # a non-positive request whose path ends in something not modelled: not judged
-            for s, out, p, consumed in hits:
-                if out[0] != 'ret':
+        bad, judged, ambiguous = [], 0, False
+        try:
+            for vals in itertools.product(_ATTR_A0, *([_ATTR_N] * n_al)):
+                e = {'A0': vals[0]}
+                want = vals[0]
+                for i, n in enumerate(vals[1:]):
+                    e['N%d' % (i + 1)] = n
+                    if n > 0:
+                        want = n
+                positive = all(n > 0 for n in vals[1:])
+                hits = [x for x in sums if x[0].applies(e)]
+                txt = ', '.join('%s=%d' % (k_, e[k_]) for k_ in sorted(e, key=lambda z: (z != 'A0', z)))
+                if not hits:
                     if positive:
-                        bad.append(('rejected', 'is rejected by %s() (%s)' % (out[1], txt)))
-                    continue    # a non-positive alignment may be diagnosed
-                judged += 1
-                got = s.out['align'](e)
-                if got != want:
-                    if n_al == 0:
-                        why = 'no aligned attribute is present, it must be left alone'
-                    elif not positive and want == vals[0]:
-                        why = 'a non-positive request is ignored'
-                    elif n_al > 1:
-                        why = 'every positive aligned(N) sets the alignment, so the last one decides (gcc), whether it is smaller or larger than what the type had'
-                    else:
-                        why = 'aligned(N) sets the alignment to N, whether that is smaller or larger than what the type had'
-                    bad.append(('align', 'the type\'s alignment becomes %d, must be %d with %s (%s)' % (got, want, txt, why)))
-                if p != want_pk:
-                    bad.append(('packed', 'is_packed is %d, must be %d' % (p, want_pk)))
-                if not consumed:
-                    bad.append(('consumed', 'the attribute list is not consumed completely'))
-        if [b for b in bad if b[0] is None] and not [b for b in bad if b[0]]:
+                        bad.append((None, 'no path of attribute_list() covers %s' % txt))
+                    continue        # a non-positive request whose path ends in something not modelled: not judged
+                outcomes = set((out[0], out[1] if out[0] != 'ret' else s.out['align'](e), p, consumed) for s, out, p, consumed in hits)
+                if len(outcomes) > 1:
+                    # the guards do not separate the paths (a decision the summary cannot see): no verdict from this case
+                    bad = [(None, 'several paths of attribute_list() apply to %s and disagree: the paths are not a function of the modelled inputs' % txt)]
+                    ambiguous = True
+                    break
+                for s, out, p, consumed in hits:
+                    if out[0] != 'ret':
+                        if positive:
+                            bad.append(('rejected', 'is rejected by %s() (%s)' % (out[1], txt)))
+                        continue    # a non-positive alignment may be diagnosed
+                    judged += 1
+                    got = s.out['align'](e)
+                    if got != want:
+                        if n_al == 0:
+                            why = 'no aligned attribute is present, it must be left alone'
+                        elif not positive and want == vals[0]:
+                            why = 'a non-positive request is ignored'
+                        elif n_al > 1:
+                            why = 'every positive aligned(N) sets the alignment, so the last one decides (gcc), whether it is smaller or larger than what the type had'
+                        else:
+                            why = 'aligned(N) sets the alignment to N, whether that is smaller or larger than what the type had'
+                        bad.append(('align', 'the type\'s alignment becomes %d, must be %d with %s (%s)' % (got, want, txt, why)))
+                    if p != want_pk:
+                        bad.append(('packed', 'is_packed is %d, must be %d' % (p, want_pk)))
+                    if not consumed:
+                        bad.append(('consumed', 'the attribute list is not consumed completely'))
+        except (Uninterpretable, ZeroDivisionError, KeyError) as ex:
+            rep.undecided('R08.3', key, '`struct %s {...}`: the path summaries of attribute_list() cannot be evaluated: %r' % (shown, ex), where=where)
+            continue
+        if ambiguous or ([b for b in bad if b[0] is None] and not [b for b in bad if b[0]]):
             rep.undecided('R08.3', key, '`struct %s {...}`: %s' % (shown, bad[0][1]), where=where)
             continue
         if not judged and not bad:
